@@ -9,6 +9,7 @@ EXTENDS FetchTree
 CONSTANTS MaxN,      \* trees over 1..n for every n <= MaxN
           Family     \* "max": deps = the most demanding well-formed graph of the tree
                      \* "all": every graph over the ids (well-formed or not; the theorem is an implication)
+                     \* "mix": "max" for every tree plus "few" for the trees over <= 3 fetches (quick tier, one run)
                      \* "few": every graph with at most two edges (both sides of the theorem are conjunctions over edges)
                      \* "bad": a well-formed graph plus ONE edge the tree does not order (negative test)
 VARIABLES tree, deps, st, seen, nstart
@@ -37,6 +38,10 @@ MaxDeps(t) == [f \in Members(t) |-> {d \in Members(t) : <<d, f>> \in Prec(t)}]
 DepFamily(t) ==
   CASE Family = "max" -> {MaxDeps(t)}
     [] Family = "all" -> [Members(t) -> SUBSET Members(t)]
+    [] Family = "mix" -> {MaxDeps(t)} \cup
+                         (IF Cardinality(Members(t)) <= 3
+                          THEN {g \in [Members(t) -> SUBSET Members(t)] : Cardinality({e \in Members(t) \X Members(t) : e[1] \in g[e[2]]}) <= 2}
+                          ELSE {})
     [] Family = "few" -> {g \in [Members(t) -> SUBSET Members(t)] : Cardinality({e \in Members(t) \X Members(t) : e[1] \in g[e[2]]}) <= 2}
     [] Family = "bad" -> {[MaxDeps(t) EXCEPT ![e[2]] = @ \cup {e[1]}] :
                             e \in {x \in Members(t) \X Members(t) : x[1] # x[2] /\ x \notin Prec(t)}}
